@@ -25,6 +25,10 @@ var c15Kinds = []struct {
 	{"F.I >= 1 && F.Chk(%1)", []string{"Complete()", "F.Act(%2)"}},
 	{"F.I < 0", []string{"F.Act(%2)"}},
 	{"F.B", []string{"F.Act(%2)", "F.B = false"}},
+	// rules that retract themselves (the condition stays true) or every rule of the program: after them nothing,
+	// or less, is left to select
+	{"F.I2 < 5", []string{"F.Act(%2)", `Retract("%n")`, "F.Act(%3)"}},
+	{"F.I < 5", []string{`Retract("r1")`, `Retract("r2")`, "F.Act(%2)", `Retract("r3")`}},
 }
 
 func c15Rule(i, k int) *grl.Rule {
@@ -32,6 +36,7 @@ func c15Rule(i, k int) *grl.Rule {
 		for d := 1; d <= 3; d++ {
 			s = strings.ReplaceAll(s, "%"+strconv.Itoa(d), strconv.Itoa(i*10+d))
 		}
+		s = strings.ReplaceAll(s, "%n", fmt.Sprintf("r%d", i))
 		return s
 	}
 	r := &grl.Rule{Name: fmt.Sprintf("r%d", i), When: grl.E(rep(c15Kinds[k].cond))}
@@ -105,9 +110,14 @@ func c15Judge(rules []*grl.Rule, cause error, tr *hx.Trace) (sig, what string, n
 		}
 		return "", "", true
 	}
-	// nil is acceptable only if the run had no work left
+	// nil after a flip: only when an action called Complete() (C10: Execute then returns nil)
 	if tr.Completed {
 		return "", "", true
+	}
+	if executing != "" {
+		// every flip of this check happens while Execute is at work (inside a poll, an action or a callback); one that
+		// comes during the actions of a rule is followed by at least the decision whether anything is left to do
+		return "C15:nil-return-after-cancellation-during-actions", fmt.Sprintf("the context flipped during the actions of %s, yet Execute returned nil instead of the context's error (events %v)", executing, tr.Events), true
 	}
 	if len(tr.FinalCands) > 0 {
 		return "C15:nil-return-despite-cancellation-with-work-left", fmt.Sprintf("context flipped during the run, rules %v are satisfied on the final facts, yet Execute returned nil (events %v)", tr.FinalCands, tr.Events), true
